@@ -158,6 +158,7 @@ impl World {
                 Some(idx)
             }
             Err(e) => {
+                crate::capture::error("create_message", &e);
                 self.note(format!("A m{m} msg failed: {}", error_variant(&e)));
                 None
             }
@@ -254,6 +255,7 @@ impl World {
                 Some(idx)
             }
             Err(e) => {
+                crate::capture::error("commit-api", &e);
                 self.note(format!("A m{m} commit [{what}] failed: {}", error_variant(&e)));
                 None
             }
@@ -282,6 +284,7 @@ impl World {
                 true
             }
             Err(e) => {
+                crate::capture::error("merge_pending_commit", &e);
                 self.note(format!("  m{m} merge_pending_commit failed: {}", error_variant(&e)));
                 false
             }
@@ -303,6 +306,7 @@ impl World {
                 Some(idx)
             }
             Err(e) => {
+                crate::capture::error("leave_group", &e);
                 self.note(format!("A m{m} leave failed: {}", error_variant(&e)));
                 None
             }
@@ -338,6 +342,13 @@ impl World {
             }
         };
         let after = self.clients[m].state(g, &gid);
+        if crate::capture::is_active() {
+            match &r {
+                Ok(v) => crate::capture::value("process_message", v),
+                Err(e) => crate::capture::error("process_message", e),
+            }
+            self.learn_secrets(m, g);
+        }
         out.class = result_class(&r);
         out.after = after.clone();
         out.rollbacks = self.clients[m].cb.0.lock().unwrap()[nb..].to_vec();
@@ -427,6 +438,31 @@ impl World {
         self.clients.iter().enumerate().filter(|(i, _)| Some(*i) != self.groups[g].oracle).filter_map(|(_, c)| c.state(g, &gid)).map(|s| s.1).max().unwrap_or(0)
     }
 
+    /// C14: register what is sensitive about client `m`'s view of group `g` right now.
+    pub fn learn_secrets(&self, m: usize, g: usize) {
+        use crate::sim::adversary as adv;
+        let gid = self.gid(g);
+        crate::capture::secret("mls-group-id", gid.as_slice());
+        with_mdk!(self.clients[m].mdk, x => {
+            if let Some(n) = adv::nostr_group_id(x, &gid) { crate::capture::secret("nostr-group-id", &n); }
+            if let Some(e) = adv::current_epoch(x, &gid) {
+                for ep in e.saturating_sub(2)..=e {
+                    if let Some(sec) = adv::exporter_secret(x, &gid, ep) { crate::capture::secret("exporter-secret", &sec); }
+                }
+            }
+            if let Ok(Some(grp)) = x.load_mls_group(&gid) {
+                if let Ok(gd) = NostrGroupDataExtension::from_group(&grp) {
+                    if let Some(k) = gd.image_key { crate::capture::secret("image-key", &k); }
+                    if let Some(k) = gd.image_upload_key { crate::capture::secret("image-upload-seed", &k); }
+                    if let Some(k) = gd.image_nonce { crate::capture::secret("image-nonce", &k); }
+                }
+            }
+        });
+        if let Some(k) = self.clients[m].db_key {
+            crate::capture::secret("database-key", &k);
+        }
+    }
+
     pub fn eligible(&self, m: usize, idx: usize, causal: bool, proposals_first: bool) -> bool {
         let p = &self.log[idx];
         if !self.groups[p.g].invited.contains(&m) {
@@ -458,6 +494,7 @@ impl World {
                 ok
             }
             Err(e) => {
+                crate::capture::error("process_welcome", &e);
                 self.note(format!("J c{j} process_welcome failed {}", error_variant(&e)));
                 false
             }
